@@ -73,6 +73,15 @@ func (f *file) cmpOperands(fnName, lhs, rhs string) (int64, bool) {
 			return true
 		}
 		if stripParens(exprStr(f.fset, be.X)) == stripParens(lhs) && stripParens(exprStr(f.fset, be.Y)) == stripParens(rhs) {
+			// `a < b` / `a <= b` are read as the complementary test `a >= b` / `a > b` of an
+			// if/else (or early return) with swapped branches: the same program. Whether the
+			// branches still do the same is for the correspondence run to say.
+			switch c {
+			case 3:
+				c = 0
+			case 2:
+				c = 1
+			}
 			code = c
 			found++
 		}
